@@ -106,7 +106,7 @@ theorem space_stop (b : UInt8) (r : Bytes) (h1 : isWhitespace b = false) (h2 : b
     · rename_i heq; injection heq with e _; exact absurd e h2
     · rfl
   unfold space
-  simp only [List.length_cons, spaceF, spanP, h1, Bool.false_eq_true, if_false, hc]
+  simp only [spaceF, spanP, h1, Bool.false_eq_true, if_false, hc]
 
 theorem space_nl_stop (b : UInt8) (r : Bytes) (h1 : isWhitespace b = false) (h2 : b ≠ 37) :
     space (10 :: b :: r) = b :: r := by
@@ -162,6 +162,37 @@ theorem xmapOf_ok (pre : Bytes) (d : SDoc) (hg : GensOk d) : XrefMapOk (xmapOf p
 theorem noDigit_trailer (r : Bytes) : NoDigitAhead (TRAILER_KW ++ r) := by
   intro b r' h; simp [TRAILER_KW] at h; obtain ⟨rfl, _⟩ := h; decide
 
+/-- `xref_and_trailer` on a written table + trailer, whatever follows the trailer dictionary
+(`tail`), given that the dictionary reads back there -/
+theorem xrefAndTrailer_table (x : XrefMap) (size : Nat) (tr : Dict) (tail : Bytes)
+    (hx : XrefMapOk x) (hs : size ≤ 4294967295) (hD : DictReadsBack tr tail)
+    (hsz : tr.get SIZE = some (.int (size : Int))) :
+    ∃ table, xrefAndTrailer (writeXrefTable x size ++ (TRAILER_KW ++ (writeObj (.dict tr) ++ tail)))
+        = .ok (table, size, tr) ∧
+      ∀ n, table.get n = if 1 ≤ n ∧ n < size then normalOf x n else none := by
+  obtain ⟨table, hp, hget⟩ := xref_table_rt x size (TRAILER_KW ++ (writeObj (.dict tr) ++ tail)) hx hs
+    (noDigit_trailer _)
+  refine ⟨table, ?_, hget⟩
+  obtain ⟨w, hw⟩ := writeObj_dict_cons tr
+  have hsp : space (TRAILER_KW ++ (writeObj (.dict tr) ++ tail)) = TRAILER_KW ++ (writeObj (.dict tr) ++ tail) := by
+    simp only [TRAILER_KW, List.cons_append]
+    exact space_stop 116 _ (by decide) (by decide)
+  have htg : tag TRAILER_WORD (TRAILER_KW ++ (writeObj (.dict tr) ++ tail))
+      = some (10 :: (writeObj (.dict tr) ++ tail)) := by
+    simp [TRAILER_KW, TRAILER_WORD, tag]
+  have hsp2 : space (10 :: (writeObj (.dict tr) ++ tail)) = writeObj (.dict tr) ++ tail := by
+    rw [hw]
+    simp only [List.cons_append]
+    exact space_nl_stop 60 _ (by decide) (by decide)
+  have hsz' : (tr.get SIZE).bind Obj.asInt = some (size : Int) := by
+    rw [hsz]; simp [Obj.asInt]
+  have hmod : ((size : Int) % (U32 : Int)).toNat = size := by
+    simp [U32]; omega
+  unfold DictReadsBack at hD
+  unfold xrefAndTrailer
+  rw [hp]
+  simp only [hsp, pTrailer, htg, Option.bind_some, hsp2, hD, Option.map_some, hsz', hmod]
+
 /-- **Loading a table save reconstructs the writer's table (C01/C03).** For every document saved
 with a classic table (file < 4 GiB, `max_id + 1 ≤ u32::MAX`, `u16` generations) whose trailer
 dictionary reads back (object-level round trip): the reader finds `startxref`, and
@@ -185,33 +216,11 @@ theorem load_xref_of_save_table (pre : Bytes) (d : SDoc) (out : Bytes) (d' : SDo
   have e : out = bodyOf pre d ++ (writeXrefTable (xmapOf pre d) (d.maxId + 1)
       ++ (TRAILER_KW ++ (writeObj (.dict d'.trailer) ++ tail))) := by
     rw [hout, htr, ← htail]; simp only [List.append_assoc]
-  obtain ⟨table, hp, hget⟩ := xref_table_rt (xmapOf pre d) (d.maxId + 1)
-    (TRAILER_KW ++ (writeObj (.dict d'.trailer) ++ tail)) hxok hmax (noDigit_trailer _)
+  obtain ⟨table, hxt, hget⟩ := xrefAndTrailer_table (xmapOf pre d) (d.maxId + 1) d'.trailer tail hxok hmax hD
+    (by rw [htr, Dict.get_set_same]; simp)
   refine ⟨(bodyOf pre d).length, table, startxref_found pre d out d' h hlen, hb, ?_, hget, ?_⟩
-  · have hdrop : out.drop (bodyOf pre d).length = writeXrefTable (xmapOf pre d) (d.maxId + 1)
-        ++ (TRAILER_KW ++ (writeObj (.dict d'.trailer) ++ tail)) := by
-      rw [e, List.drop_left]
-    rw [hdrop]
-    obtain ⟨w, hw⟩ := writeObj_dict_cons d'.trailer
-    have hsp : space (TRAILER_KW ++ (writeObj (.dict d'.trailer) ++ tail))
-        = TRAILER_KW ++ (writeObj (.dict d'.trailer) ++ tail) := by
-      simp only [TRAILER_KW, List.cons_append]
-      exact space_stop 116 _ (by decide) (by decide)
-    have htg : tag TRAILER_WORD (TRAILER_KW ++ (writeObj (.dict d'.trailer) ++ tail))
-        = some (10 :: (writeObj (.dict d'.trailer) ++ tail)) := by
-      simp [TRAILER_KW, TRAILER_WORD, tag]
-    have hsp2 : space (10 :: (writeObj (.dict d'.trailer) ++ tail)) = writeObj (.dict d'.trailer) ++ tail := by
-      rw [hw]
-      simp only [List.cons_append]
-      exact space_nl_stop 60 _ (by decide) (by decide)
-    have hsz : (d'.trailer.get SIZE).bind Obj.asInt = some ((d.maxId + 1 : Nat) : Int) := by
-      rw [htr, Dict.get_set_same]; simp [Obj.asInt]
-    have hmod : ((((d.maxId + 1 : Nat) : Int)) % (U32 : Int)).toNat = d.maxId + 1 := by
-      simp [U32]; omega
-    unfold DictReadsBack at hD
-    unfold xrefAndTrailer
-    rw [hp]
-    simp only [hsp, pTrailer, htg, Option.bind_some, hsp2, hD, Option.map_some, hsz, hmod]
+  · rw [e, List.drop_left]
+    exact hxt
   · intro n off g hn
     rw [hget n] at hn
     split at hn
